@@ -20,6 +20,7 @@ PLAN = dict(
         "VERIF_C16_SKIP_F10=1 excludes strings with CR/LF between the '*' delimiters of a byte sequence (known finding F10); default is to report them",
     ],
     runs=[
+        dict(name="conc", run="^(TestConcValueRoundTrip|TestConcInvalidValues|TestConcStringsMutated)$", checks=(400, 20000), shards=(2, 8), timeout=(400, 3600), race=True),
         dict(name="exh", run="^TestStringsExhaustive$", shards=(1, 16), timeout=(300, 900)),
         dict(name="value", run="^(TestPropValueRoundTrip|TestValueEdgeCases|TestCorpus)$", checks=(20000, 300000), shards=(1, 4)),
         dict(name="invalid", run="^(TestPropInvalidValues|TestInvalidEdgeCases)$", checks=(15000, 200000), shards=(1, 2)),
